@@ -4,7 +4,7 @@
     decreasing variants and, for first-fit and best-fit, the weight-function bound 10 * bins <= 17 * OPT + 9 (ceil(1.7 OPT); the
     property's floor(1.7 OPT) of Dosa and Sgall differs from it by at most one bin and only when 1.7 OPT is not an integer).
     Statements only; proofs in Proofs/PackingProofs.v and Proofs/OracleSpec.v. *)
-From Prtpy Require Import Base.Prelude Model.Binner Model.Packing Spec.Partition Oracle.Reach Proofs.PackingProofs Proofs.OracleSpec Proofs.FFDRatioProofs Proofs.BFDRatioProofs Proofs.FF17Proofs Proofs.BF17Proofs Proofs.FFD119Proofs.
+From Prtpy Require Import Base.Prelude Model.Binner Model.Packing Spec.Partition Oracle.Reach Proofs.PackingProofs Proofs.OracleSpec Proofs.FFDRatioProofs Proofs.BFDRatioProofs Proofs.FF17Proofs Proofs.BF17Proofs Proofs.FFD119Proofs Proofs.BFD54Proofs.
 
 (** first-fit: for any two bins, the earlier sum plus the first item of the later bin exceeds the bin size *)
 Theorem C09_ff_anyfit : forall (A : Type) (valueof : A -> Z) (C : Z) (items : list A) (b : bins A),
@@ -111,3 +111,18 @@ Theorem C09_ffd_ratio_11_9_partial : forall (A : Type) (valueof : A -> Z) (C : Z
   first_fit_decreasing valueof true C items = Ok b -> Packable C (map valueof items) n -> (9 * length b <= 11 * n + 8)%nat.
 Proof. exact @ffd_ratio_11_9_partial. Qed.
 Print Assumptions C09_ffd_ratio_11_9_partial.
+
+(** best-fit-decreasing: at most 5/4 OPT + 1 bins for every input (PARTIAL with respect to 11/9 OPT + 4: better for OPT <= 108, weaker beyond) *)
+Theorem C09_bfd_ratio_54_partial : forall (A : Type) (valueof : A -> Z) (C : Z) (items : list A) (b : bins A) (n : nat),
+  items <> [] -> Forall (fun x : A => 0 <= valueof x) items ->
+  best_fit_decreasing valueof true C items = Ok b -> Packable C (map valueof items) n -> (4 * length b <= 5 * n + 4)%nat.
+Proof. exact @bfd_ratio_54_partial. Qed.
+Print Assumptions C09_bfd_ratio_54_partial.
+
+(** best-fit-decreasing: 11/9 OPT + 8/9 (stronger than the property's + 4) when no value lies in (2C/11, C/4] (PARTIAL) *)
+Theorem C09_bfd_ratio_11_9_partial : forall (A : Type) (valueof : A -> Z) (C : Z) (items : list A) (b : bins A) (n : nat),
+  items <> [] -> Forall (fun x : A => 0 <= valueof x) items ->
+  Forall (fun x : A => 11 * valueof x <= 2 * C \/ C < 4 * valueof x) items ->
+  best_fit_decreasing valueof true C items = Ok b -> Packable C (map valueof items) n -> (9 * length b <= 11 * n + 8)%nat.
+Proof. exact @bfd_ratio_11_9_partial. Qed.
+Print Assumptions C09_bfd_ratio_11_9_partial.
